@@ -73,7 +73,9 @@ ProxyProtocol::One::ExtractIp(Parser::Tokenizer &tok, Ip::Address &addr)
     if (!tok.skip(' '))
         throw TexcHere("PROXY/1.0 error: garbage after IP address");
 
-    if (!addr.GetHostByName(ip.c_str()))
+    // numeric addresses only: GetHostByName() would hand text such as "a.b"
+    // (all ipChars) to the resolver, a blocking DNS lookup on sender-chosen text
+    if (!(addr = ip.c_str()))
         throw TexcHere("PROXY/1.0 error: invalid IP address");
 
 }
